@@ -289,12 +289,15 @@ pub fn gen_val(t: &mut Tape, ty: Ty, nullable: bool) -> Val {
     }
 }
 
-/// Insert batches per table. Primary keys are unique over the whole table.
+/// Insert batches per table. Primary keys are unique over the whole table, except in one keyed
+/// table of four.
 pub fn gen_data(t: &mut Tape, cfg: &GenCfg, schema: &[TableDef]) -> Vec<Vec<Vec<Vec<Val>>>> {
     schema
         .iter()
         .map(|td| {
             let nb = t.range(0, cfg.max_batches);
+            // one keyed table in four holds repeated key values (uniqueness is not enforced)
+            let dup_keys = td.cols.iter().any(|c| c.pk) && t.chance(1, 4);
             let mut next_pk: Vec<i64> = vec![];
             let mut batches = vec![];
             let mut total = 0;
@@ -313,7 +316,7 @@ pub fn gen_data(t: &mut Tape, cfg: &GenCfg, schema: &[TableDef]) -> Vec<Vec<Vec<
                             if c.pk {
                                 // unique keys in non-monotone order
                                 let mut k = t.pick(40) as i64 - 5;
-                                while next_pk.contains(&k) {
+                                while next_pk.contains(&k) && !(dup_keys && t.chance(1, 3)) {
                                     k += 1;
                                 }
                                 next_pk.push(k);
